@@ -87,7 +87,7 @@ func NewCache(s *server) elton.Handler {
 
 		key := getKey(c.Request)
 		httpCache := disp.GetHTTPCache(key)
-		cacheStatus, httpResp := httpCache.Get()
+		cacheStatus, httpResp, age := httpCache.GetWithAge()
 
 		cacheable := false
 		// 对于fetching类的请求，如果最终是不可缓存的，则设置hit for pass
@@ -106,7 +106,7 @@ func NewCache(s *server) elton.Handler {
 			// 设置缓存数据
 			setHTTPResp(c, httpResp)
 			// 设置缓存数据的age
-			setHTTPRespAge(c, httpCache.Age())
+			setHTTPRespAge(c, age)
 			return nil
 		}
 
